@@ -33,10 +33,12 @@ CONFIGS = {
     'regtree': ['-DSCPI_USER_CONFIG', '-I' + os.path.join(HARNESS, 'regtree')],      # USE_CUSTOM_REGISTERS with the generated user tree
     'iso': [],                                                                       # strict ISO C for the library: its own str* fallbacks
     'fewerr': ['-DUSE_FULL_ERROR_LIST=0'],
-    'c89': [],                                           # the minimal error list
+    'c89': [],
+    'c89dtostre': ['-DUSE_CUSTOM_DTOSTRE=1'],            # a C89 target without snprintf: the library's own formatter
+    'uchar': [],                                         # plain char is unsigned (ARM, PowerPC)
 }
 # flags for the library sources only (the drivers keep the default dialect)
-LIBFLAGS = {'iso': ['-std=c99'], 'c89': ['-std=c89']}      # c89: additionally no stdbool (scpi_bool_t is an unsigned char)
+LIBFLAGS = {'iso': ['-std=c99'], 'c89': ['-std=c89'], 'c89dtostre': ['-std=c89'], 'uchar': ['-funsigned-char']}      # c89: additionally no stdbool (scpi_bool_t is an unsigned char)
 LIBSRC = ['error.c', 'fifo.c', 'ieee488.c', 'minimal.c', 'parser.c', 'units.c', 'utils.c', 'lexer.c', 'expression.c']
 
 def _hash_files(paths, extra=''):
